@@ -343,7 +343,15 @@ func walkHistory(prop string, res *RunResult, onQuery func(m *LogModel, op *plan
 			if ab == "hang" {
 				site = ir.HangKind()
 			}
-			vs = append(vs, Violation{Sig: prop + ":node-" + ab + ":" + site, Msg: fmt.Sprintf("incarnation %d ended abnormally (%s): %s", ii, ab, trimTo(ir.Stderr, 1500))})
+			// the operation in flight when the process died: the first one without a journal entry
+			suffix := ""
+			for oi := range inc.Ops {
+				if ir.Get(fmt.Sprint(oi)) == nil {
+					suffix = inflightSuffix(prop, &inc.Ops[oi])
+					break
+				}
+			}
+			vs = append(vs, Violation{Sig: prop + ":node-" + ab + ":" + site + suffix, Msg: fmt.Sprintf("incarnation %d ended abnormally (%s): %s", ii, ab, trimTo(ir.Stderr, 1500))})
 			// C01 is a fault-free property: a process that hung or died (reported above) did not shut down
 			// gracefully, so "everything accepted before is flushed" does not hold for what follows
 			return vs, m
@@ -548,4 +556,21 @@ func dropColumnsFromBatch(r *rand.Rand, evs []json.RawMessage) []json.RawMessage
 		out = append(out, json.RawMessage(sb.String()))
 	}
 	return out
+}
+
+// inflightSuffix names the recorded shape of the query that was running when a node died, where one exists: C04
+// queries that group by the designated sparse field `sg` (the sparse-group-key finding also shows as a malformed
+// group key that ConvertGroupByKeyFromBytes slices out of range).
+func inflightSuffix(prop string, op *plan.Op) string {
+	if prop != "C04" || op.Kind != "query" {
+		return ""
+	}
+	agg, _ := op.Args["agg"].(map[string]any)
+	by, _ := agg["by"].([]any)
+	for _, b := range by {
+		if b == "sg" {
+			return ":sparse-group-key"
+		}
+	}
+	return ""
 }
